@@ -28,7 +28,7 @@ def used(name):
     USED.add(name)
 
 
-DSL_FUNCS = {"forall", "exists", "implies", "ite", "old"}
+DSL_FUNCS = {"forall", "exists", "implies", "ite", "old", "entry", "before"}
 CONSTS = {"np.pi": math.pi, "math.pi": math.pi, "np.newaxis": NONE, "queue.Empty": VClass("Empty")}
 CM_CLASSES = {"File", "H5File", "contextmanager_lib", "suppress"}
 
